@@ -602,8 +602,12 @@ class Dataset(AbstractDataset, dict, OpMixin, GetSetDelAttrMixin):
                 raise TypeError("mapper must be callable")
             iterkeys = [(old, mapper(old)) for old in ds.dims]
 
-        for old, new in iterkeys:
-            ds.axes[old].name = new
+        # all names at once (renaming one axis after the other by name goes through duplicate
+        # names when the new names permute the present ones) -- via the dims setter, which checks them
+        mapping = dict(iterkeys)
+        for old in mapping:
+            ds.axes[old] # the dimension must exist
+        ds.dims = tuple(mapping.get(old, old) for old in ds.dims)
 
         if not inplace:
             return ds
